@@ -87,7 +87,7 @@ struct Msg {
         for (long i = 0; i < n && i < 1000; i++) m.cuts.push_back((long)r.i());
         return m;
     }
-    std::string describe() const { return std::to_string(size()) + "B/" + std::to_string(cuts.size() + 1) + "app"; }
+    std::string describe() const { bool noapp = size() == 0 && cuts.size() == 1 && cuts[0] == -1; return std::to_string(size()) + "B/" + std::to_string(noapp ? 0 : cuts.size() + 1) + "app"; }
 };
 static Msg prng_msg(long len, unsigned long long seed) { Msg m; m.kind = 1; m.len = len; m.seed = seed; return m; }
 
@@ -101,6 +101,8 @@ struct Exact {
 template <class Obj> static std::string feed(Obj &o, std::string const &data, std::vector<long> const &cuts, unsigned ds) {
     Exact in(data);
     size_t pos = 0;
+    // cuts == {-1} on an empty message: the caller has nothing to add and calls readout() straight away (no append() at all)
+    if (data.empty() && cuts.size() == 1 && cuts[0] == -1) { Exact out0(ds, 0xAA); o.readout(out0.p.get()); return out0.str(); }
     for (long c : cuts) {
         size_t e = c < 0 ? 0 : (size_t)c; if (e > data.size()) e = data.size(); if (e < pos) e = pos;
         o.append(in.p.get() + pos, e - pos);
@@ -183,7 +185,8 @@ static Outcome p_hash(HCase const &c) {
         Msg const &m = c.msgs[i];
         std::string data = m.bytes();
         if (pad_zone(data.size(), A.bs)) { nt = true; VR.cls("hash.len_in_padding_zone"); }
-        if (!m.cuts.empty()) VR.cls("hash.chunked_append");
+        if (data.empty() && m.cuts.size() == 1 && m.cuts[0] == -1) { VR.cls(i ? "hash.readout_without_append_on_reused_object" : "hash.readout_without_append"); if (i) nt = true; }
+        else if (!m.cuts.empty()) VR.cls("hash.chunked_append");
         if (data.size() > 4096) VR.cls("hash.len>4K");
         std::string ref = c.mode ? ref_hmac(A, c.key, data) : ref_digest(A, data);
         std::string got = c.mode ? feed(*hm, data, m.cuts, A.ds) : feed(*md, data, m.cuts, A.ds);
@@ -552,6 +555,7 @@ static Msg gen_msg(unsigned bs, long maxlong, bool with_cuts) {
     else if (sel < 18) len = *vr::range<long>(301, 4098);
     else len = *vr::range<long>(4098, maxlong + 1);
     if (len < 0) len = 0;
+    if (*vr::range<int>(0, 10) == 0) len = 0;          // empty messages matter on a re-used object (with and without an append call)
     int ck = *vr::range<int>(0, 10);
     if (len <= 256 && ck < 5) { m.kind = 0; m.lit = gen_bytes((int)len); }
     else if (ck < 8) { m.kind = 1; m.len = len; m.seed = *rc::gen::arbitrary<unsigned long long>(); }
@@ -564,6 +568,7 @@ static Msg gen_msg(unsigned bs, long maxlong, bool with_cuts) {
             m.cuts.push_back(std::max(0L, std::min(p, len)));
         }
         std::sort(m.cuts.begin(), m.cuts.end());
+        if (len == 0 && *vr::range<int>(0, 2)) m.cuts.assign(1, -1);      // readout() without any append()
     }
     return m;
 }
@@ -686,6 +691,16 @@ static void grid(Shard &sh) {
         VR.cls("grid.G5_hmac_all_lengths_0..1024");
         sh.good = vr::run_direct("hash", c, p_hash);
     }
+    // G8: one object, four messages; an empty message fed without any append() call at every position, every algorithm,
+    //     digest and HMAC (short, block-sized and long key)
+    for (int a = 0; a < 6 && sh.good; a++) for (int mode = 0; mode < 2 && sh.good; mode++) for (int kv = 0; kv < (mode ? 3 : 1) && sh.good; kv++)
+        for (unsigned mask = 1; mask < 16 && sh.good; mask++) for (int how = 0; how < 3 && sh.good; how++) {
+            if (!sh.mine()) continue;
+            HCase c; c.algo = a; c.mode = mode; c.how = how; if (mode) c.key = prng_msg(kv == 0 ? 16 : kv == 1 ? ALGOS[a].bs : 2 * ALGOS[a].bs + 5, 90 + kv).bytes();
+            for (int i = 0; i < 4; i++) { Msg m = prng_msg((mask >> i) & 1 ? 0 : (long)(ALGOS[a].bs * i + 7 * i + 1), 300 + i); if ((mask >> i) & 1) m.cuts.assign(1, -1); c.msgs.push_back(m); }
+            VR.cls("grid.G8_readout_without_append");
+            sh.good = vr::run_direct("hash", c, p_hash);
+        }
     // G6: CBC, every block count 1..64, three key sizes, every way of creating the object
     for (int t = 0; t < 3 && sh.good; t++) for (long nb = 1; nb <= 64 && sh.good; nb++) for (int how = 0; how < 16 && sh.good; how++) {
         if (!sh.mine()) continue;
